@@ -1018,7 +1018,8 @@ class Engine(ExprMixin, CallMixin):
 
     def check_invs(self, k, lc, st, phase, node):
         for j, text in enumerate(lc.get("inv", [])):
-            self.emit(f"loop{k}.inv{j}.{phase}", st, self.spec_eval(text, st), node, kind="invariant")
+            lab = lc.get("labels", {}).get(j)  # optional readable tag per invariant: loop2.inv4[kd-radius].init
+            self.emit(f"loop{k}.inv{j}{'[' + lab + ']' if lab else ''}.{phase}", st, self.spec_eval(text, st), node, kind="invariant")
 
     def assume_invs(self, lc, st):
         for text in lc.get("inv", []):
